@@ -346,6 +346,8 @@ enum CommandExecutionError {
     Killed { signal: i32 },
     CannotRun(io::Error),
     NotFound,
+    // the command line is too long once the input line is substituted (-I)
+    TooLarge,
     Unknown,
 }
 
@@ -358,6 +360,7 @@ impl Display for CommandExecutionError {
             }
             Self::CannotRun(err) => write!(f, "Command could not be run: {err}"),
             Self::NotFound => write!(f, "Command not found"),
+            Self::TooLarge => write!(f, "Command line too long after substitution"),
             Self::Unknown => write!(f, "Unknown error running command"),
         }
     }
@@ -374,6 +377,8 @@ struct CommandBuilderOptions {
     action: ExecAction,
     env: HashMap<OsString, OsString>,
     limiters: LimiterCollection,
+    /// The limiters before the command was charged to them (for -I, see `execute`).
+    empty_limiters: LimiterCollection,
     verbose: bool,
     close_stdin: bool,
     replace: Option<String>,
@@ -389,6 +394,7 @@ impl CommandBuilderOptions {
             ExecAction::Command(args) => args.iter().map(std::convert::AsRef::as_ref).collect(),
             ExecAction::Echo => vec![OsStr::new("echo")],
         };
+        let empty_limiters = limiters.clone();
 
         for arg in initial_args {
             limiters.try_arg(Argument {
@@ -401,6 +407,7 @@ impl CommandBuilderOptions {
             action,
             env,
             limiters,
+            empty_limiters,
             verbose: false,
             close_stdin: false,
             replace,
@@ -444,6 +451,20 @@ impl CommandBuilder<'_> {
                 .iter()
                 .map(|arg| replace_in_os_str(arg, replace_str, &self.extra_args[0]))
                 .collect();
+
+            // The limiters have only seen the command as written plus the line once; what
+            // is run may be longer (several occurrences, or one inside a long argument).
+            let mut limiters = self.options.empty_limiters.clone();
+            for arg in std::iter::once(entry_point).chain(initial_args.iter().map(|a| a.as_os_str()))
+            {
+                let arg = Argument {
+                    arg: arg.to_owned(),
+                    kind: ArgumentKind::Initial,
+                };
+                if limiters.try_arg(arg).is_err() {
+                    return Err(CommandExecutionError::TooLarge);
+                }
+            }
 
             command
                 .args(&initial_args)
@@ -1159,6 +1180,7 @@ pub fn xargs_main(args: &[&str]) -> i32 {
                     CommandExecutionError::Killed { .. } => 125,
                     CommandExecutionError::CannotRun(_) => 126,
                     CommandExecutionError::NotFound => 127,
+                    CommandExecutionError::TooLarge => 1,
                     CommandExecutionError::Unknown => 1,
                 }
             } else {
